@@ -200,6 +200,17 @@ def _entries(ir):
     return [(n, p, False) for n, p in ir["params"]] + ([("return_type", ir["returns"], True)] if ir["returns"] else [])
 
 
+def _mentions_str(typ):
+    """`needs_quoting(typ)`: the type names `str` or holds a string literal"""
+    if not typ:
+        return False
+    try:
+        t = ast.parse(typ, mode="eval")
+    except SyntaxError:
+        return False
+    return any((isinstance(n, ast.Name) and n.id == "str") or (isinstance(n, ast.Constant) and isinstance(n.value, str)) for n in ast.walk(t))
+
+
 def empty_breaks(kinds_here, typ):
     """where an empty-string default is still treated as absent (truthiness tests) after fix ee47c47: the class and
     argparse emitters, unless the declared type is plain `str` (whose zero value it is)"""
@@ -392,6 +403,7 @@ class AstKindProp(Prop):
         "AST-code-default": {"SyntaxError", "TypeError", "ValueError", "AttributeError"},
         "AST-untyped-entry": {"ValueError", "AttributeError"},
         "C02-dict-typed-attribute": {"TypeError"},
+        "AST-non-string-default-under-a-str-mentioning-type": {"AttributeError", "TypeError"},
     }
 
     def explain(self, c):
@@ -415,6 +427,8 @@ class AstKindProp(Prop):
                 out.append(("AST-empty-or-dotted-string-default", {n: F["AST-empty-or-dotted-string-default"]}, set()))
             if d is not None and "efaults" in (p.get("doc") or "") and not G.has_own_default_sentence(p):
                 out.append(("C17-D9-prose-mentions-defaults", {n: F["C17-D9-prose-mentions-defaults"]}, set()))
+            if d is not None and d["t"] in ("int", "float", "bool") and _mentions_str(p.get("typ")):
+                out.append(("AST-non-string-default-under-a-str-mentioning-type", {n: {"default", "typ", "prose"}}, set()))
             if optional_prose(p) and not all(k == "argparse" for k in kinds_here):
                 out.append(("AST-prose-starting-with-optional-wraps-the-type", {n: {"typ"}}, set()))
         out += self.explain_kind(c)
@@ -438,6 +452,21 @@ class AstKindProp(Prop):
         diffs = fl.get("diffs")
         if diffs is None:
             return ex[0][0]
+        for d in diffs:
+            if d.startswith("parameter names/order") and not c.get("chain"):
+                # the recorded reordering is exact: entries with prose first (in order), the others after them (in
+                # order), a **kwargs entry last; any other order is not explained by it
+                try:
+                    got = ast.literal_eval(d.split(" -> ", 1)[1])
+                except Exception:
+                    return None
+                names = [n for n, _ in c["ir"]["params"]]
+                doc = [n for n, p in c["ir"]["params"] if "doc" in p]
+                first = doc + [n for n in names if n not in doc]
+                kw = [n for n in names if n.endswith("kwargs")]
+                allowed = [first, [n for n in first if n not in kw] + kw]
+                if got not in allowed:
+                    return None
         return covered_by(ex, diffs)
 
     def classify_kind(self, c, fl):
@@ -501,6 +530,9 @@ class C02(AstKindProp):
             try:
                 # what the class parser sees: the statement after unparse / re-parse
                 stmt = ast.parse(ast.unparse(ast.fix_missing_locations(ast.Module(body=[node], type_ignores=[])))).body[0]
+            except Exception:
+                continue  # (the emitted statement cannot be unparsed: the dict-typed attribute finding)
+            try:
                 cls = ast.ClassDef(name="ConfigClass", bases=[], keywords=[], body=[stmt], decorator_list=[], type_params=[])
                 back = parse.class_(ast.fix_missing_locations(cls))["params"][n]
                 impl2 = {"ok": {"typ": _canon_type(back.get("typ")), "default": canon_val(val_to_json(back["default"])) if "default" in back else None}}
